@@ -87,9 +87,12 @@ def iso_params(valid=True):
         blocks=u32(),
         block_size=st.sampled_from([512, 1024, 2048, 2048, 4096, 1, 65535]),
         ident=st.sampled_from([b'CD001', b'CD001', b'NSR02', b'NSR03']),
-        tail=st.sampled_from([0, 1, 2048, 10000]), fill=fills)
+        tail=st.sampled_from([0, 1, 2048, 10000]), fill=fills,
+        extra=st.sampled_from([0, 0, 0, 1, 3]),
+        extra_type=st.sampled_from([0, 2, 3]))
     if not valid:
         d['dtype'] = st.sampled_from([0, 1, 1, 2, 255])
+        d['extra'] = st.sampled_from([0, 1, 3, 40])
     return st.fixed_dictionaries(d)
 
 
@@ -136,6 +139,13 @@ VMDK_UNSAFE_LINES = (
     ('extent_path', 'RDONLY 2048 SPARSE "../other/disk.vmdk"'),
     ('extent_path', 'rw 1 vmfs "a/b.vmdk"'),
 )
+# lines carrying control characters other than '\n' that some line
+# splitters treat as line ends: still ONE descriptor line
+for _sep in '\r\x0b\x0c\x1c\x1d\x1e\t':
+    VMDK_UNSAFE_LINES += (
+        ('extent_path', 'RW 2048 FLAT "a%sddb.x=/etc/shadow" 0' % _sep),
+        ('unknown_line', 'whatever this is%sddb.fine = "1"' % _sep),
+    )
 VMDK_TYPES_OK = ('monolithicSparse', 'streamOptimized', 'MONOLITHICSPARSE',
                  'streamoptimized', 'StreamOptimized')
 VMDK_TYPES_BAD = ('monolithicFlat', 'vmfs', 'twoGbMaxExtentSparse',
